@@ -542,22 +542,30 @@ func TestC11Race(t *testing.T) {
 	for r := 0; r < rounds; r++ {
 		g := []int{8, 32, 64}[r%3]
 		procs := []int{1, 2, 16}[(r/3)%3]
-		cmd := exec.Command(os.Args[0], "-test.run", "^TestC11Race$", "-test.count=1")
-		cmd.Env = append(os.Environ(), fmt.Sprintf("%s=%d", envRaceChild, g), fmt.Sprintf("GOMAXPROCS=%d", procs), "VERIF_EVIDENCE_PART=")
-		out, err := cmd.CombinedOutput()
+		f := raceRoundOnce(g, procs)
 		rec.Eval(int64(g))
 		rec.NonTrivialEnum(int64(g))
 		rec.Class(fmt.Sprintf("goroutines=%d", g))
 		rec.Class(fmt.Sprintf("gomaxprocs=%d", procs))
-		c := map[string]any{"goroutines": g, "gomaxprocs": procs, "round": r}
+		c := map[string]any{"goroutines": g, "gomaxprocs": procs}
 		rec.Sample(fmt.Sprintf("g=%d", g), c)
-		if bytes.Contains(out, []byte("WARNING: DATA RACE")) {
-			rec.Check(t, "raceround", c, ev.Failf("C11/data-race/first-classification", "race detector report while %d goroutines classified fresh types:\n%.1500s", g, out))
-		} else if err != nil || !bytes.Contains(out, []byte("C11-CHILD-OK")) {
-			m := regexpFind(out, "C11-CHILD-FAIL .*")
-			rec.Check(t, "raceround", c, ev.Failf("C11/wrong-classification-under-concurrency", "child failed: %v %s", err, m))
-		}
+		rec.Check(t, "raceround", c, f)
 	}
+}
+
+// raceRoundOnce re-executes the test binary (fresh process => empty classification cache) and lets g
+// goroutines classify every corpus type for the first time.
+func raceRoundOnce(g, procs int) *ev.Failure {
+	cmd := exec.Command(os.Args[0], "-test.run", "^TestC11Race$", "-test.count=1")
+	cmd.Env = append(os.Environ(), fmt.Sprintf("%s=%d", envRaceChild, g), fmt.Sprintf("GOMAXPROCS=%d", procs), "VERIF_EVIDENCE_PART=", "VERIF_REPLAY=")
+	out, err := cmd.CombinedOutput()
+	if bytes.Contains(out, []byte("WARNING: DATA RACE")) {
+		return ev.Failf("C11/data-race/first-classification", "race detector report while %d goroutines classified fresh types:\n%.1500s", g, out)
+	}
+	if err != nil || !bytes.Contains(out, []byte("C11-CHILD-OK")) {
+		return ev.Failf("C11/wrong-classification-under-concurrency", "child failed: %v %s", err, regexpFind(out, "C11-CHILD-FAIL .*"))
+	}
+	return nil
 }
 
 func regexpFind(b []byte, _ string) string {
@@ -626,6 +634,18 @@ func replayShim(rp *ev.Replay) *ev.Failure {
 			return ev.Failf("C11/replay-type-missing", "type %s is not part of the generated corpus any more", c.Type)
 		}
 		return oracleC11(&c)
+	case "raceround":
+		var c struct{ Goroutines, Gomaxprocs int }
+		if err := json.Unmarshal(rp.Case, &c); err != nil {
+			return ev.Failf("C11/replay", "bad case: %v", err)
+		}
+		// schedules are sampled: repeat the fresh-process round
+		for i := 0; i < 40; i++ {
+			if f := raceRoundOnce(c.Goroutines, c.Gomaxprocs); f != nil {
+				return f
+			}
+		}
+		return nil
 	case "ucase":
 		var c UCase
 		if err := json.Unmarshal(rp.Case, &c); err != nil {
